@@ -11,49 +11,140 @@ THEOREMS = [
     "PorepyVerif.C46.get_missing_errors",
     "PorepyVerif.C46.get_present",
     "PorepyVerif.C46.coords_nodup_reachable",
+    # deepening round: order, returned vector, storage order, docstring corollaries, value_dim = k
+    "PorepyVerif.C46.lexLe_total_order",
+    "PorepyVerif.C46.isort_sorted_perm",
+    "PorepyVerif.C46.uniqueCoords_spec",
+    "PorepyVerif.C46.freshCoords_spec",
+    "PorepyVerif.C46.add_ret_spec",
+    "PorepyVerif.C46.add_ret_length",
+    "PorepyVerif.C46.add_ret_unique",
+    "PorepyVerif.C46.add_storage_order",
+    "PorepyVerif.C46.add_storage_order_reachable",
+    "PorepyVerif.C46.add_ret_is_storage_permutation",
+    "PorepyVerif.C46.add_overwrite_last",
+    "PorepyVerif.C46.add_additive_sum",
+    "PorepyVerif.C46.add_untouched",
+    "PorepyVerif.C46.addK_preserves",
+    "PorepyVerif.C46.addK_refines",
+    "PorepyVerif.C46.getK_refines",
+    "PorepyVerif.C46.sparseK_refines_dictK",
+    "PorepyVerif.C46.sparseK_refines_dictK_from_empty",
+    "PorepyVerif.C46.addK_ret",
 ]
 LEAN_MODULES = ["PorepyVerif.C46.Props"]
 AUDIT = "PorepyVerif/C46/Audit.lean"
 DRIVER = "PorepyVerif/C46/Driver.lean"
 N = {"quick": 300, "thorough": 6000}
-RULE = ("histories of 1-14 add/get calls (gets may precede the first add) on SparseNdArray(dim 1-3, value_dim 1-2); coordinates from a box of side 2-4 so that "
-        "duplicates inside and across batches are frequent; values are small dyadic rationals (binary64 exact); "
+RULE = ("histories of 1-14 (thorough: 1-30) add/get calls on SparseNdArray(dim 1-3, value_dim 1-3), drawn from seven strata: "
+        "random (coordinates from a box of side 2-4 so that duplicates inside and across batches are frequent); gets before the first add; "
+        "the same batch added repeatedly (additive and overwriting mixed); batches whose coordinates are all equal; "
+        "negative and large coordinates (+-10^6 and neighbours); add with an empty coordinate list (early return) between other calls; "
+        "many in-batch duplicates of NEW coordinates (first occurrence != last occurrence, for the returned index vector). "
+        "Values are small dyadic rationals (binary64 exact). get([]) is never generated (outside the property: the real code raises "
+        "IndexError/ValueError from numpy/KDTree glue on an empty inquiry, a dictionary would return nothing). "
         "non-trivial = at least one batch updates >=2 already stored coordinates or has an in-batch duplicate, and at least one get; "
         "distinct = distinct op sequences")
-TRUSTED = ["modelled, not verified: scipy KDTree proximity query inside intersect_sets (tolerance 1e-10 on integer coordinates), np.unique/np.bincount"]
-EXPLANATION = ("FULL: model = storage lists + add/get as coded; theorem sparse_refines_dict: every history of add/get equals a plain dictionary. "
-               "Correspondence compares get results, add's returned index vector and the final storage (coords order and values) exactly.")
-ASSUMPTIONS = ["values are exact in binary64 (dyadic generator) so that the rational model and the float implementation agree exactly"]
+TRUSTED = ["modelled, not verified: scipy KDTree proximity query inside intersect_sets (tolerance 1e-10 on integer coordinates), np.unique/np.bincount",
+           "value_dim = k is modelled as k value rows over (provably) identical coordinate lists; the implementation keeps one shared coordinate array"]
+EXPLANATION = ("FULL: model = storage lists + add/get as coded; theorem sparse_refines_dict: every history of add/get equals a plain dictionary; "
+               "sparseK_refines_dictK: the k-row array the driver executes (value_dim = k) equals a dictionary with k-vectors as values, for every well-formed history. "
+               "add_ret_spec/add_ret_length/add_ret_unique: the returned vector lists, for each new distinct coordinate in lexicographic order, the position of its first "
+               "occurrence in the batch (complete, valid, pairwise distinct; the spec determines it uniquely). add_storage_order: storage afterwards = old storage in place "
+               "(values updated) ++ new distinct coordinates sorted (isort_sorted_perm, lexLe_total_order, uniqueCoords_spec, freshCoords_spec); add_ret_is_storage_permutation: "
+               "the appended columns are the batch coordinates at the returned positions, in that order (docstring of the return value). "
+               "add_overwrite_last / add_additive_sum / add_untouched restate the docstring of add. "
+               "Correspondence compares get results, add's returned index vector and the final storage (coords order and values) exactly; the oracle checks dict semantics, "
+               "the returned vector against its specification and the storage order after every add on the real code.")
+ASSUMPTIONS = ["values are exact in binary64 (dyadic generator) so that the rational model and the float implementation agree exactly",
+               "get is called with at least one coordinate (get([]) raises IndexError for dim 1 and ValueError for dim >= 2 in the real code; excluded, not modelled)",
+               "value_dim >= 1 and every add passes a (value_dim x n) value array for n coordinates (hypotheses OpK.WF, 0 < k of the k-row theorems)"]
+
+STRATA = ["random", "random", "random", "get_first", "repeat_batch", "all_equal", "large", "empty_add", "dup_new"]
+BIG = 10 ** 6
+
+
+def _val(rng):
+    return frac(Fraction(rng.randint(-64, 64), rng.choice([1, 2, 4, 8])))
+
+
+def _add(rng, coords, vdim, additive=None):
+    k = len(coords)
+    vals = [[_val(rng) for _ in range(k)] for _ in range(vdim)]
+    return {"op": "add", "coords": [list(c) for c in coords], "values": vals,
+            "additive": (rng.random() < 0.5) if additive is None else additive}
+
+
+def _get(rng, seen, fresh_coord, kmax=5, p_missing=0.15):
+    k = rng.randint(1, kmax)
+    pool = sorted(seen)
+    coords = [list(rng.choice(pool)) if pool else fresh_coord() for _ in range(k)]
+    if rng.random() < p_missing:  # sometimes ask for a coordinate never inserted
+        coords[rng.randrange(k)] = fresh_coord()
+    return {"op": "get", "coords": coords}
 
 
 def gen_case(rng, tier):
+    stratum = rng.choice(STRATA)
     dim = rng.choice([1, 1, 2, 3])
-    vdim = rng.choice([1, 1, 2])
+    vdim = rng.choice([1, 1, 2, 3])
     side = rng.choice([2, 3, 4])
     nops = rng.randint(1, 14 if tier == "quick" else 30)
+    if stratum == "large":
+        axis = [-BIG, -BIG + 1, -1, 0, 1, BIG - 1, BIG]
+        coord = lambda: [rng.choice(axis) for _ in range(dim)]
+    else:
+        coord = lambda: [rng.randrange(-1, side) for _ in range(dim)]
+    wide = lambda: [rng.randrange(-1, side + 1) for _ in range(dim)] if stratum != "large" else coord()
     ops = []
     seen = set()
-    for _ in range(nops):
-        # gets may come before the first add (reading the still-empty array must raise, and must
+
+    def push_add(coords, additive=None):
+        ops.append(_add(rng, coords, vdim, additive))
+        seen.update(map(tuple, coords))
+
+    if stratum == "get_first":
+        # gets come before the first add (reading the still-empty array must raise, and must
         # not disturb later calls): seeded change seeded/C46 needs exactly that history
-        if rng.random() < 0.6 or (not seen and rng.random() < 0.7):
-            k = rng.randint(1, 6)
-            coords = [[rng.randrange(-1, side) for _ in range(dim)] for _ in range(k)]
-            vals = [[frac(Fraction(rng.randint(-64, 64), rng.choice([1, 2, 4, 8]))) for _ in range(k)] for _ in range(vdim)]
-            ops.append({"op": "add", "coords": coords, "values": vals, "additive": rng.random() < 0.5})
-            seen.update(map(tuple, coords))
+        for _ in range(rng.randint(1, 3)):
+            ops.append({"op": "get", "coords": [coord() for _ in range(rng.randint(1, 3))]})
+    if stratum == "repeat_batch":
+        base = [coord() for _ in range(rng.randint(1, 5))]
+        template = _add(rng, base, vdim)
+        for _ in range(rng.randint(2, 4)):
+            op = dict(template, additive=rng.random() < 0.5)
+            if rng.random() < 0.3:  # same coordinates, other values
+                op = _add(rng, base, vdim, op["additive"])
+            ops.append(op)
+            seen.update(map(tuple, base))
+            if rng.random() < 0.7:
+                ops.append(_get(rng, seen, wide))
+    while len(ops) < nops:
+        u = rng.random()
+        if stratum == "all_equal" and u < 0.6:
+            c = coord()
+            push_add([c] * rng.randint(1, 5))
+        elif stratum == "empty_add" and u < 0.3:
+            push_add([])
+        elif stratum == "dup_new" and u < 0.6:
+            # several distinct coordinates, each repeated, shuffled: first != last occurrence
+            base = [coord() for _ in range(rng.randint(1, 4))]
+            coords = [c for c in base for _ in range(rng.randint(1, 3))]
+            rng.shuffle(coords)
+            push_add(coords)
+        elif u < 0.6 or (not seen and u < 0.9):
+            push_add([coord() for _ in range(rng.randint(1, 6))])
         else:
-            k = rng.randint(1, 5)
-            pool = sorted(seen)
-            coords = [list(rng.choice(pool)) if pool else [rng.randrange(-1, side) for _ in range(dim)] for _ in range(k)]
-            if rng.random() < 0.15:  # sometimes ask for a coordinate never inserted
-                coords[rng.randrange(k)] = [rng.randrange(-1, side + 1) for _ in range(dim)]
-            ops.append({"op": "get", "coords": coords})
-    return {"dim": dim, "value_dim": vdim, "ops": ops}
+            ops.append(_get(rng, seen, wide))
+    return {"dim": dim, "value_dim": vdim, "stratum": stratum, "ops": ops}
 
 
 def _arrs(coords):
     return [np.array(c, dtype=int) for c in coords]
+
+
+def _vals_array(op, vdim):
+    return np.array([[float(Fraction(v)) for v in row] for row in op["values"]], dtype=float).reshape(vdim, len(op["coords"]))
 
 
 def impl_run(case):
@@ -63,8 +154,7 @@ def impl_run(case):
     for op in case["ops"]:
         try:
             if op["op"] == "add":
-                vals = np.array([[float(Fraction(v)) for v in row] for row in op["values"]])
-                r = a.add(_arrs(op["coords"]), vals, additive=op["additive"])
+                r = a.add(_arrs(op["coords"]), _vals_array(op, case["value_dim"]), additive=op["additive"])
                 out.append({"ret": [int(i) for i in r]})
             else:
                 v = a.get(_arrs(op["coords"]))
@@ -76,22 +166,68 @@ def impl_run(case):
 
 
 def model_ops(case):
-    return [{"op": "init", "value_dim": case["value_dim"]}] + case["ops"] + [{"op": "dump"}]
+    ops = [{"op": "init", "value_dim": case["value_dim"]}]
+    for op in case["ops"]:
+        if op["op"] == "add":
+            n = len(op["coords"])
+            # the model takes value COLUMNS: cols[j] = values[:, j]
+            cols = [[row[j] for row in op["values"]] for j in range(n)]
+            ops.append({"op": "add", "coords": op["coords"], "cols": cols, "additive": op["additive"]})
+        else:
+            ops.append({"op": "get", "coords": op["coords"]})
+    return ops + [{"op": "dump"}]
 
 
 def model_decode(outs, case):
     return outs[1:]
 
 
+def expected_ret(stored, coords):
+    """Specification of add's return value, written independently of the Lean model: for every
+    distinct coordinate of the batch that is not stored yet, in lexicographic order of these
+    coordinates, the position of its first occurrence in the batch."""
+    first = {}
+    for i, c in enumerate(coords):
+        first.setdefault(tuple(c), i)
+    return [first[c] for c in sorted(first) if c not in stored]
+
+
+def _check_ret(r, stored, coords, k):
+    """add's return value against its specification; separate keys for separate failure classes."""
+    cs = [tuple(c) for c in coords]
+    r = [int(i) for i in r]
+    want = expected_ret(stored, coords)
+    if r == want:
+        return None
+    if any(i < 0 or i >= len(cs) for i in r):
+        return {"what": f"add returned {r}: position outside the batch of {len(cs)} coordinates (op {k})", "key": "add-ret-position-invalid"}
+    if any(cs[i] in stored for i in r):
+        return {"what": f"add returned {r}: lists a coordinate that was already stored (op {k})", "key": "add-ret-lists-stored"}
+    if any(cs.index(cs[i]) != i for i in r):
+        return {"what": f"add returned {r}, expected first occurrences {want} (op {k}, coords {coords})", "key": "add-ret-not-first-occurrence"}
+    if len(r) != len(want) or {cs[i] for i in r} != {cs[i] for i in want}:
+        return {"what": f"add returned {r}, expected {want}: not one position per new distinct coordinate (op {k}, coords {coords})", "key": "add-ret-incomplete"}
+    return {"what": f"add returned {r}, expected {want}: not in lexicographic order of the new coordinates (op {k}, coords {coords})", "key": "add-ret-order"}
+
+
 def oracle(case):
-    """The property itself on the real code: compare with a python dict under the same operations."""
+    """The property itself on the real code: compare with a python dict under the same operations;
+    after every add also the returned vector and the storage order against their specifications."""
     from porepy.utils.array_operations import SparseNdArray
     a = SparseNdArray(case["dim"], value_dim=case["value_dim"])
     d = {}
+    order = []  # expected storage order of the coordinates
     for k, op in enumerate(case["ops"]):
         if op["op"] == "add":
             vals = [[Fraction(v) for v in row] for row in op["values"]]
-            a.add(_arrs(op["coords"]), np.array([[float(x) for x in row] for row in vals]), additive=op["additive"])
+            stored = set(d)
+            try:
+                r = a.add(_arrs(op["coords"]), _vals_array(op, case["value_dim"]), additive=op["additive"])
+            except Exception as e:  # a well-formed add never raises (a dictionary write cannot fail)
+                return {"what": f"add of {len(op['coords'])} coordinates raised {type(e).__name__}: {e} (op {k})", "key": "add-raises"}
+            bad = _check_ret(r, stored, op["coords"], k)
+            if bad:
+                return bad
             for i, c in enumerate(op["coords"]):
                 col = [row[i] for row in vals]
                 t = tuple(c)
@@ -99,6 +235,18 @@ def oracle(case):
                     d[t] = [x + y for x, y in zip(d[t], col)]
                 else:
                     d[t] = col
+            n_old = len(order)
+            order += sorted({tuple(c) for c in op["coords"]} - stored)
+            got_order = [tuple(int(x) for x in col) for col in a._coords.T]
+            # docstring of the return value: "permutation vector applied before the coordinates and
+            # data were added to storage" = appended column j is the batch coordinate at position r[j]
+            if got_order[n_old:] != [tuple(op["coords"][int(i)]) for i in r]:
+                return {"what": f"appended storage columns {got_order[n_old:]} are not the batch coordinates at the returned positions {[int(i) for i in r]} (op {k})", "key": "ret-not-the-storage-permutation"}
+            if got_order != order:
+                return {"what": f"storage order after add is {got_order}, expected old order followed by the sorted new coordinates {order} (op {k})", "key": "storage-order"}
+            got_vals = [[Fraction(float(x)) for x in a._values[:, j]] for j in range(a._values.shape[1])]
+            if got_vals != [d[c] for c in order]:
+                return {"what": f"stored values after add differ from the dictionary (op {k})", "key": "storage-values"}
         else:
             want_err = any(tuple(c) not in d for c in op["coords"])
             try:
@@ -127,13 +275,18 @@ def nontrivial(case):
     return hard and any(op["op"] == "get" for op in case["ops"])
 
 
+def signature(case):
+    import json
+    return json.dumps({"dim": case["dim"], "value_dim": case["value_dim"], "ops": case["ops"]}, sort_keys=True)
+
+
 def shrink_candidates(case):
     ops = case["ops"]
     for i in range(len(ops)):
         yield dict(case, ops=ops[:i] + ops[i + 1:])
     for i, op in enumerate(ops):
         k = len(op["coords"])
-        if k > 1:
+        if k > 1:  # never shrinks to an empty inquiry (get([]) is outside the property)
             for j in range(k):
                 op2 = dict(op, coords=op["coords"][:j] + op["coords"][j + 1:])
                 if op["op"] == "add":
@@ -142,8 +295,20 @@ def shrink_candidates(case):
 
 
 def stats(cases, impl_outs):
-    n_add = sum(1 for c in cases for o in c["ops"] if o["op"] == "add")
+    adds = [o for c in cases for o in c["ops"] if o["op"] == "add"]
     n_get = sum(1 for c in cases for o in c["ops"] if o["op"] == "get")
     n_err = sum(1 for out in impl_outs for o in out if isinstance(o, dict) and "err" in o)
-    return {"adds": n_add, "gets": n_get, "get_errors": n_err, "additive_adds": sum(1 for c in cases for o in c["ops"] if o.get("additive")),
-            "dims": {str(d): sum(1 for c in cases if c["dim"] == d) for d in (1, 2, 3)}, "value_dim2": sum(1 for c in cases if c["value_dim"] == 2)}
+
+    def first_ne_last(o):
+        cs = list(map(tuple, o["coords"]))
+        return any(cs.index(c) != len(cs) - 1 - cs[::-1].index(c) for c in set(cs))
+
+    return {"adds": len(adds), "gets": n_get, "get_errors": n_err, "additive_adds": sum(1 for o in adds if o.get("additive")),
+            "empty_adds": sum(1 for o in adds if not o["coords"]),
+            "adds_with_in_batch_duplicates": sum(1 for o in adds if first_ne_last(o)),
+            "adds_all_coordinates_equal": sum(1 for o in adds if len(o["coords"]) > 1 and len(set(map(tuple, o["coords"]))) == 1),
+            "cases_with_large_coordinates": sum(1 for c in cases if any(abs(x) >= BIG - 1 for o in c["ops"] for cc in o["coords"] for x in cc)),
+            "cases_get_before_first_add": sum(1 for c in cases if c["ops"] and c["ops"][0]["op"] == "get"),
+            "strata": {s: sum(1 for c in cases if c.get("stratum") == s) for s in sorted(set(STRATA))},
+            "dims": {str(d): sum(1 for c in cases if c["dim"] == d) for d in (1, 2, 3)},
+            "value_dims": {str(v): sum(1 for c in cases if c["value_dim"] == v) for v in (1, 2, 3)}}
